@@ -61,11 +61,9 @@ NATURAL = {
                                          "WILD_SAVE_SKIP_LINKING": "1"}),
 }
 QUICK_PANIC_POINTS = [
-    "enter:Activate thread pool", "enter:Open input files", "enter:Parse file",
-    "after-load-inputs", "enter:Resolve symbols", "enter:Layout", "enter:Activate group",
-    "enter:Create output file", "enter:Write output file", "enter:Write group",
-    "after-verify-inputs", "child:before-inform", "child:after-inform", "enter:Drop layout",
-    "parent:before-wait",
+    "enter:Activate thread pool", "enter:Parse file", "after-load-inputs", "enter:Layout",
+    "enter:Activate group", "enter:Create output file", "enter:Write group",
+    "child:after-inform", "enter:Drop layout", "parent:before-wait",
 ]
 SIGNAL_POINTS = [("enter:Layout", a) for a in SIGNAL_ACTIONS] + [
     ("enter:Activate thread pool", "kill9"), ("enter:Write group", "kill9"),
@@ -210,7 +208,7 @@ def run_member(m):
                     # the log comes from a different non-main thread.
                     t1 = time.time()
                     seen = 0
-                    while time.time() - t1 < 2.0:
+                    while time.time() - t1 < 10.0:
                         lg = read_log(log)
                         ix = max(i for i, e in enumerate(lg) if e[0] == "enter:Parse file"
                                  and e[1] == 1)
@@ -299,9 +297,6 @@ def build_members(thorough, points_by_mode):
     def add(**kw):
         members.append(kw)
 
-    quick_panic = [p for p in QUICK_PANIC_POINTS if p not in (
-        "enter:Open input files", "enter:Resolve symbols", "enter:Write output file",
-        "after-verify-inputs", "child:before-inform")]
     quick_signal = [(pt, do) for pt, do in SIGNAL_POINTS
                     if pt in ("enter:Layout", "parent:before-wait")]
     for kind in kinds:
@@ -317,13 +312,12 @@ def build_members(thorough, points_by_mode):
                         if tk >= 1 and o not in ("exit-help", "exit-version") and (
                                 thorough or (full and o in ("success", "err-undefined-symbol"))):
                             add(**cfg, outcome=o, k=1)
-                    add(**cfg, outcome="probe", pause="enter:Parse file")
                     # With an explicit --threads wild never touches the pipe: the quick tier runs
                     # the fault outcomes only where tokens are actually taken.
                     if not full or (not thorough and th is not None):
                         continue
                     pts = points_by_mode[mode] if thorough else [
-                        p for p in quick_panic if p in points_by_mode[mode]]
+                        p for p in QUICK_PANIC_POINTS if p in points_by_mode[mode]]
                     for pt in pts:
                         add(**cfg, outcome="panic", at=pt, do="panic")
                     for pt, do in (SIGNAL_POINTS if thorough else quick_signal):
@@ -374,15 +368,15 @@ def main():
         inputs = os.path.join(base, "in")
         make_inputs(inputs)
         common = dict(base=base, inputs=inputs, wild=vlib.WILD)
-        # Baseline: which phase points exist in each mode (panic is injected at `enter:` and plain
-        # points; `exit:` points fire inside a destructor, see assumptions).
+        # Baseline: which phase points exist in each mode (one point is excluded, see
+        # assumptions).
         points_by_mode = {}
         for i, mode in enumerate(("fork", "nofork")):
             o = run_member(dict(common, idx=f"b{i}", kind="pipe", tokens=3, threads=None,
                                 mode=mode, outcome="success"))
             if o["machinery"] or o["rc"] != 0 or sorted(o["final"]) != sorted(o["initial"]):
                 chk.machinery(f"baseline {mode} link failed: {o}")
-            points_by_mode[mode] = [p for p in o["points"] if not p.startswith("exit:")]
+            points_by_mode[mode] = [p for p in o["points"] if p != "exit:Activate thread pool"]
             if "enter:Layout" not in points_by_mode[mode]:
                 chk.machinery("phase log has no enter:Layout")
         members = build_members(chk.thorough, points_by_mode)
@@ -402,7 +396,26 @@ def main():
             by_cfg.setdefault((m["kind"], m["tokens"], m["threads"], m["mode"]), {})[
                 (m["outcome"], m.get("k", 0))] = (m, o)
 
-        counts = dict(runs=len(members), conserved=0, uncatchable=0, signal_but_intact=0,
+        # Second phase: a "use" probe for every configuration whose pool exceeds its allowance.
+        need = []
+        for m, o in zip(members, obs):
+            lay = o.get("layout")
+            if m.get("pause") == "enter:Layout" and m["outcome"] == "success" and not lay:
+                chk.machinery(f"{member_label(m)}: enter:Layout was not reached within 30 s")
+            if lay and m["outcome"] == "success" and lay["workers"] > lay["acquired"] + 1 and \
+                    not (m["threads"] is not None and lay["workers"] <= m["threads"]):
+                need.append(dict(common, idx=f"p{len(need)}", kind=m["kind"], tokens=m["tokens"],
+                                 threads=m["threads"], mode=m["mode"], outcome="probe",
+                                 pause="enter:Parse file"))
+        for pm, po in zip(need, vlib.pmap(run_member, need, chunksize=1)):
+            if po["machinery"]:
+                chk.machinery(f"{member_label(pm)}: {po['machinery']}")
+            by_cfg[(pm["kind"], pm["tokens"], pm["threads"], pm["mode"])][("probe", 0)] = (pm, po)
+        members = members + need
+        obs = obs + [po for _, po in [by_cfg[(pm["kind"], pm["tokens"], pm["threads"],
+                                              pm["mode"])][("probe", 0)] for pm in need]]
+
+        counts = dict(runs=len(members), use_probes=len(need), conserved=0, uncatchable=0, signal_but_intact=0,
                       fault_not_reached=0, thread_bound_evaluated=0, thread_bound_held=0,
                       explicit_threads_exceeding_tokens=0, competitor_runs=0,
                       unconfirmed_pool_excess=0)
@@ -487,19 +500,21 @@ def main():
                     "acquisition point)",
             "samples": samples, "exhaustive": True, **counts,
             "panic_points": {k: len(v) for k, v in points_by_mode.items()} if chk.thorough
-            else {"quick_list": [p for p in QUICK_PANIC_POINTS]},
+            else {"quick_list": QUICK_PANIC_POINTS},
             "threads_at_layout": thread_table,
             "uncatchable_samples": uncatchable_samples,
             "thinned": None if chk.thorough else
-            "quick: fifo kind runs only success / skip-linking / probe; panic at 10 "
-                       "representative points instead of every enter/plain phase point; signals "
+            "quick: fifo kind runs only success / skip-linking; panic at 10 "
+                       "representative points instead of every phase point; signals "
                        "at 2 points; panic / signal outcomes only for --threads absent; competitor "
                        "only with success and undefined-symbol outcomes",
         }
         chk.assumptions = [
-            "panics are injected at `enter:` and plain phase points only: `exit:` points fire "
-            "inside PhaseGuard::drop, where a panic leaks the function's in-flight return value "
-            "(rust-lang/rust#47949) - a property of the hook placement, not of wild",
+            "no panic is injected at `exit:Activate thread pool`: `exit:` points fire inside "
+            "PhaseGuard::drop, i.e. after activate_thread_pool has moved the acquired tokens "
+            "into its return value, and a panic in a local's destructor leaks the in-flight "
+            "return value (rust-lang/rust#47949; observed: tokens lost) - a property of where the "
+            "hook sits, not a path wild's own code can take",
             "a process killed by a signal cannot return tokens (class uncatchable, counted)",
             "explicit --threads=N is taken as the user's allowance (wild then acquires no tokens "
             "and uses N workers); counted as explicit_threads_exceeding_tokens, not a violation",
